@@ -119,6 +119,11 @@ def cases(draw):
         "slack": [draw(slack), draw(slack), draw(slack), draw(slack)],
         "ratio": draw(st.sampled_from([0.5, 0.5, 1.0, 0.3, 2.0])),
         "detect": draw(st.sampled_from([False, False, True])),
+        # an earlier render of the same image through the same entry point is interrupted at a generated point
+        "abort": draw(st.one_of(st.none(), st.none(), st.none(), st.floats(0.0, 0.999, allow_nan=False))),
+        # the image is an instance of a user subclass of the style class (with "detect": support is detected through
+        # the subclass, the style class itself never having been asked)
+        "subclass": draw(st.integers(0, 3)) == 0,
     }
     if entry == "str":
         case["alpha"] = 40 / 255
@@ -175,6 +180,8 @@ def make_image(case):
     from PIL import Image
 
     cls = {"block": I.BlockImage, "kitty": I.KittyImage, "iterm2": I.ITerm2Image}[case["style"]]
+    if case.get("subclass"):
+        cls = type(cls)("Sub" + cls.__name__, (cls,), {})
     src = case["source"]
     pil = None
     if src["kind"] == "pil":
@@ -266,13 +273,27 @@ def _check(case, rec, image, Screen, anchor, DEFAULT_SGR):
     sa = dict(case["style_args"])
     if sa.get("method", 0) is None:
         sa.pop("method")
-    try:
+    def render():
         if entry == "str":
-            out = str(image)
-        elif entry == "format":
-            out = format(image, fmt_spec(case))
-        else:
-            out = image._renderer(image._render_image, case["alpha"], **sa)
+            return str(image)
+        if entry == "format":
+            return format(image, fmt_spec(case))
+        return image._renderer(image._render_image, case["alpha"], **sa)
+
+    if case.get("abort") is not None and W * H <= 48:
+        from ..faults import interrupt_at
+
+        try:
+            lf = interrupt_at(("image/block.py", "image/kitty.py", "image/iterm2.py", "image/common.py"), case["abort"], render,
+                              max_lines=20000)
+        except Exception as e:
+            raise Violation(f"render raised {type(e).__name__}: {e}", {"kind": "render_exception"})
+        if lf is not None and lf.fired:
+            rec.label("after_interrupted_render")
+    if case.get("subclass"):
+        rec.label("subclass")
+    try:
+        out = render()
     except Exception as e:
         raise Violation(f"render raised {type(e).__name__}: {e}", {"kind": "render_exception"})
     if not isinstance(case["size"][1], int) and case["size"][0] == "dynamic":
